@@ -1,4 +1,5 @@
 """C13 — send(), event methods and bound events are one and the same entry point."""
+import eng
 import gen
 from engcorr import c01_monitor, engine_check, split_ops
 from framework import lean_obligations
@@ -91,7 +92,7 @@ def monitor(s, a, rt):
             if len(set(ids)) != len(ids):
                 fails.append(f"C13: allowed_events lists an event twice: {l}")
             want = []
-            for t in s.trans:
+            for t in eng.expanded_trans(s):
                 if t.src == val2idx[cur]:
                     for e in t.events:
                         if str(e) not in want:
